@@ -216,7 +216,8 @@ def run(ctx, rep):
     doml = Q.dominators(gl)
     from .. import callgraph as _cgm
     cg_ = _cgm.get(ctx)
-    IMPORTERS = ("__import__", "importlib.import_module", "import_module")
+    IMPORTERS = ("__import__", "importlib.import_module", "import_module", "importlib.util.find_spec", "find_spec",
+                 "importlib.find_loader", "pkgutil.find_loader", "pkgutil.get_loader")   # find_spec imports parent packages
 
     def import_escapes(fq, depth=0):
         """does a failing import inside package function fq escape it? (None: fq does not import)"""
@@ -490,17 +491,22 @@ def _dump_record_model(ctx, rep):
              "hasattr": lambda o, n: n in table}
     bad = []
     rows = 0
+    hooks["str"] = lambda o=None: "TEXT FROM __str__ (may quote a relayed traceback)" if o is val else str(o)
+    hooks["format"] = lambda o, *a: "TEXT FROM __format__" if o is val else format(o, *a)
     try:
-        for tbflag in (True, False):
-            for verflag in (True, False):
+        for tbflag, verflag, the_args in ((True, True, table["args"]), (True, False, table["args"]), (False, True, table["args"]),
+                                          (False, False, table["args"]), (False, False, ())):
+            if True:
                 rows += 1
+                table["args"] = the_args
+                _Exc.args = the_args
                 extra = {"__calls__": hooks, "__globals__": glob, "__max_iter__": 200}
                 extra["__global_lookup__"] = K.module_function_lookup(ctx, fd.module, extra)
                 got = MI.call_function(fd.node, [ECLS, val, "TRACEBACK", tbflag, verflag], extra)
                 want_attrs = [(n, ("repr:unencodable object" if table[n] is OBJ else table[n]))
                               for n in listing if n in table and n != "args" and not n.startswith("_") and n != "with_traceback"]
                 want_attrs.append(("_remote_version", "VERSION" if verflag else "<version denied>"))
-                want = (("app.errors", "AppError"), (1, "x", "repr:unencodable object", None), tuple(want_attrs),
+                want = (("app.errors", "AppError"), tuple("repr:unencodable object" if a_ is OBJ else a_ for a_ in the_args), tuple(want_attrs),
                         "TB-TEXT" if tbflag else "<traceback denied>")
                 if got != want:
                     if isinstance(got, tuple) and len(got) == 4:
@@ -525,3 +531,178 @@ def _dump_record_model(ctx, rep):
     rep.ob("R09.10", "vinegar.dump: record of the model exception (args, public attributes incl. None/False/0/'', repr of unencodable "
            "values; unreadable/private/ignored names skipped)", not bad,
            "%d switch combinations give the expected record" % rows if not bad else "; ".join(bad[:2]), fd.loc, kind="table")
+    _load_record_model(ctx, rep)
+
+
+def _load_record_model(ctx, rep):
+    """R09.11: vinegar.load evaluated (sa/miniinterp.py) on model records and model classes: which class the instance gets under
+    each combination of switches, that the arguments and EVERY transmitted attribute are restored (also those the class already
+    defines at class level - errno, filename, code ... are class-level descriptors of the built-ins), that read-only ones are
+    tolerated, and that nothing is imported unless import_custom_exceptions is set."""
+    from .. import miniinterp as MI
+    rep.rule("R09.11", "the rebuilt exception: class by the switches, args and every transmitted attribute restored, remote traceback "
+                       "attached, no import without the switch")
+    fl = ctx.func(V + ".load")
+    rep.analysed(fl)
+
+    class _Cls:
+        mi_native = True
+
+        def __new__(klass, *a, **k):
+            if isinstance(klass, _Cls):            # the model's `cls.__new__(cls)`
+                return _Inst(klass)
+            return object.__new__(klass)
+
+        def __init__(self, name, module, base=None, is_exc=True, class_attrs=(), readonly=()):
+            self.__dict__.update(name=name, module=module, base=base, is_exc=is_exc, class_attrs=set(class_attrs),
+                                 readonly=set(readonly))
+
+        def root(self):
+            c = self
+            while c.base is not None:
+                c = c.base
+            return c
+
+        def has(self, n):
+            c = self
+            while c is not None:
+                if n in c.class_attrs:
+                    return True
+                c = c.base
+            return n in ("args", "with_traceback", "__str__", "__name__", "__module__")
+
+    class _Inst:
+        mi_native = True
+
+        def __init__(self, cls):
+            self.__dict__["cls"] = cls
+            self.__dict__["attrs"] = {}
+
+        def mi_setattr(self, n, v):
+            c = self.cls
+            while c is not None:
+                if n in c.readonly:
+                    raise MI.Raised("AttributeError")
+                c = c.base
+            self.attrs[n] = v
+    GENERIC = _Cls("GenericException", "rpyc.core.vinegar")
+    OSE = _Cls("OSError", "builtins", class_attrs=("errno", "filename", "strerror", "characters_written"), readonly=("characters_written",))
+    NOTEXC = _Cls("int", "builtins", is_exc=False)
+    APP = _Cls("AppError", "app.errors", class_attrs=("retry_after",))
+    BUILTINS = MI.ModelObj("module builtins", {"__name__": "builtins", "OSError": OSE, "int": NOTEXC})
+    APPMOD = MI.ModelObj("module app.errors", {"__name__": "app.errors", "AppError": APP})
+
+    class _NS:
+        mi_native = True
+
+        def __init__(self, **kw):
+            self.__dict__.update(kw)
+    TYPE = MI.ModelObj("type")
+    ATTRS = (("errno", 2), ("filename", "/x"), ("strerror", None), ("characters_written", 9), ("detail", 0), ("_remote_version", "5.0.1"))
+    bad = []
+    rows = 0
+    try:
+        for modname, clsname, loaded, imp_sw, inst_sw, import_fails in (
+                ("builtins", "OSError", True, False, False, False), ("builtins", "OSError", True, True, True, False),
+                ("app.errors", "AppError", True, False, False, False), ("app.errors", "AppError", True, False, True, False),
+                ("app.errors", "AppError", False, False, True, False), ("app.errors", "AppError", False, True, True, False),
+                ("app.errors", "AppError", False, True, True, True), ("builtins", "int", True, False, True, False),
+                ("builtins", "NoSuchThing", True, False, False, False)):
+            rows += 1
+            modules = {"builtins": BUILTINS}
+            if loaded:
+                modules["app.errors"] = APPMOD
+            imports = []
+            derived = {}
+
+            def do_import(name, *a, modules=modules, imports=imports, import_fails=import_fails):
+                imports.append(name)
+                if import_fails:
+                    raise MI.Raised("RuntimeError")
+                if name == "app.errors":
+                    modules[name] = APPMOD
+
+            def g_getattr(o, n, *d):
+                if isinstance(o, MI.ModelObj):
+                    if n in o.attrs:
+                        return o.attrs[n]
+                elif isinstance(o, _Inst):
+                    if n in o.attrs:
+                        return o.attrs[n]
+                elif isinstance(o, _Cls):
+                    if n == "__name__":
+                        return o.name
+                    if n == "__module__":
+                        return o.module
+                if d:
+                    return d[0]
+                raise MI.Raised("AttributeError")
+
+            def g_type(*a):
+                if len(a) == 1:
+                    return a[0].cls if isinstance(a[0], _Inst) else TYPE if isinstance(a[0], _Cls) else type(a[0])
+                name, bases, ns = a
+                return _Cls(name, ns.get("__module__"), base=bases[0] if bases else None)
+            hooks = {"__import__": do_import, "importlib.import_module": do_import, "getattr": g_getattr, "type": g_type,
+                     "importlib.util.find_spec": do_import, "find_spec": do_import, "importlib.find_loader": do_import,
+                     "pkgutil.find_loader": do_import, "import_module": do_import,
+                     "issubclass": lambda c, b: isinstance(c, _Cls) and c.root().is_exc,
+                     "setattr": lambda o, n, v: o.mi_setattr(n, v),
+                     "hasattr": lambda o, n: (o.has(n) if isinstance(o, _Cls) else (n in o.attrs or o.cls.has(n)) if isinstance(o, _Inst)
+                                              else n in getattr(o, "attrs", {})),
+                     "_get_exception_class": lambda c: derived.setdefault(c.name, _Cls("Derived", c.module, base=c)),
+                     "ClassType": g_type, "InstanceType": lambda c: _Inst(c), "str": str}
+            glob = {"sys": _NS(modules=modules), "exceptions_module": BUILTINS, "_generic_exceptions_cache": {},
+                    "GenericException": GENERIC, "consts": _NS(EXC_STOP_ITERATION="EXC_STOP_ITERATION"), "ClassType": g_type, "type": g_type,
+                    "StopIteration": MI.ModelObj("class StopIteration"), "str": str, "BaseException": MI.ModelObj("BaseException"),
+                    "version": _NS(version=(5, 0, 1), version_string="5.0.1"), "__name__": "rpyc.core.vinegar"}
+            extra = {"__calls__": hooks, "__globals__": glob, "__max_iter__": 300,
+                     "__isinstance__": lambda v, tn: isinstance(v, _Cls) if tn.strip() == "type" else False}
+            extra["__global_lookup__"] = K.module_function_lookup(ctx, fl.module, extra)
+            rec = ((modname, clsname), (2, "msg"), ATTRS, "REMOTE-TB")
+            try:
+                got = MI.call_function(fl.node, [rec, imp_sw, inst_sw, False], extra)
+            except MI.Raised as r_:
+                bad.append("%s.%s (import=%s, instantiate=%s%s): load raises %s" % (
+                    modname, clsname, imp_sw, inst_sw, ", the import fails" if import_fails else "", r_.name))
+                continue
+            label = "%s.%s (module %s, import=%s, instantiate=%s%s)" % (modname, clsname, "loaded" if loaded else "not loaded", imp_sw,
+                                                                       inst_sw, ", the import fails" if import_fails else "")
+            if not isinstance(got, _Inst):
+                bad.append("%s: load returns %r" % (label, got))
+                continue
+            # expected class
+            avail = loaded or (imp_sw and not import_fails)
+            if clsname == "OSError":
+                want_root = OSE
+            elif clsname == "AppError" and inst_sw and avail:
+                want_root = APP
+            else:
+                want_root = GENERIC
+            chain = []
+            c = got.cls
+            while c is not None:
+                chain.append(c)
+                c = c.base
+            if chain[-1] is not want_root or chain[0].name != "Derived":
+                bad.append("%s: the instance is a %s, expected the wrapper of %s" % (label, " <- ".join(x.name for x in chain), want_root.name))
+            if want_root is GENERIC and len(chain) >= 2 and chain[-2].name != "%s.%s" % (modname, clsname):
+                bad.append("%s: the stand-in is named %r" % (label, chain[-2].name))
+            want_attrs = {n: v for n, v in ATTRS if not (n == "characters_written" and want_root is OSE)}
+            ga = {k: v for k, v in got.attrs.items() if k not in ("args", "_remote_tb")}
+            if ga != want_attrs:
+                lost = sorted(set(want_attrs) - set(ga))
+                bad.append("%s: attributes restored %s%s" % (label, sorted(ga), " - %s transmitted but not restored" % lost if lost else ""))
+            if got.attrs.get("args") != (2, "msg"):
+                bad.append("%s: args are %r" % (label, got.attrs.get("args")))
+            if not str(got.attrs.get("_remote_tb", "")).startswith("REMOTE-TB"):
+                bad.append("%s: the remote traceback text is %r" % (label, got.attrs.get("_remote_tb")))
+            want_imp = [modname] if (imp_sw and not loaded) else []
+            if imports != want_imp:
+                bad.append("%s: imports %s, expected %s" % (label, imports, want_imp))
+    except AnalysisError as e_:
+        rep.undecided("R09.11", "vinegar.load model", str(e_))
+        return
+    rep.ob("R09.11", "vinegar.load: class by the switches; args, every transmitted attribute and the remote traceback restored; imports "
+           "only under the switch", not bad, "%d records x switch combinations agree with the reference" % rows if not bad else
+           "; ".join(bad[:3]), fl.loc, kind="table")
